@@ -16,4 +16,6 @@ for d in sorted(glob.glob(os.path.join(V, "seeded", "*", "meta.json"))):
       fr = r.get("first_replay") or {}
       first = f"{c}: `{(fr.get('finding') or '')[:70]}`" + (" (replayed natively)" if fr.get("reproduced_natively") else "")
       break
+  if "caught_by_initially" in m:
+    first = (first + " — " if first else "") + "**missed at first**, caught after strengthening: " + m.get("strengthening", "")[:260]
   print(f"| {name} | {what} | {', '.join(m.get('caught_by') or []) or 'MISSED'} | {first} |")
